@@ -63,7 +63,7 @@ func c02World(t *testing.T, p c02Params) rt.Result {
 		vr := pickVariety(r, p.Dir)
 		vr.Slow = false
 		if plugN != nil {
-			vr.Reuse = false // the plugin would refuse the setup session too
+			vr.Reuse, vr.PriorIn = false, false // the plugin would refuse the setup session too
 		}
 		ps.Hold = vr.LocalHold
 		s := bringV(w, ps, p.Dir, stOpenSent, vr)
